@@ -164,7 +164,27 @@ class Lane(LaneBase):
                         oracle.append(f'is_dag() = {g.is_dag()} but brute force says {isdag} for {name} {rows}')
                     if c2 != cyc:
                         oracle.append(f'{name} built a graph whose cyclicity differs from the input {rows}')
-        return {'lines': [], 'impl': [], 'oracle': oracle[:3], 'nontrivial': cyc, 'key': 'm' + repr(rows),
+        # the literal worklist of the code (CG.Acyc.selfDep, proved equivalent to "lies on a cycle") against the real
+        # private method, node by node, on the unvalidated graph; and the whole-graph test
+        from harness.core import hxedges, hxlist, hx
+        lines, impl_out = [], []
+        try:
+            g0 = CausalGraph.from_adjacency_matrix(numpy.array(rows), names, validate=False)
+            dire = [(e.source.identifier, e.destination.identifier) for e in g0.get_edges() if impl.ety(e) == '->']
+            head = f'{hxlist(names)} {hxedges(dire)}'
+            for x in names:
+                try:
+                    g0._assert_node_does_not_depend_on_itself(x)
+                    r = '0'
+                except AssertionError:
+                    r = '1'
+                lines.append(f'topo selfdep {head} {hx(x)}')
+                impl_out.append(r)
+            lines.append(f'topo acyclic {head}')
+            impl_out.append('0' if cyc else '1')
+        except Exception as e:  # noqa: BLE001
+            oracle.append(f'from_adjacency_matrix(validate=False) raised {type(e).__name__} on {rows}')
+        return {'lines': lines, 'impl': impl_out, 'oracle': oracle[:3], 'nontrivial': cyc, 'key': 'm' + repr(rows),
                 'tags': ['matrix-cyclic' if cyc else 'matrix-acyclic']}
 
     def signature(self, case, failure):
